@@ -872,14 +872,25 @@ WINDOW_BATCH_B = (("utp-syn", "ipv6"), ("ipv8-other", "ipv6"), ("ipv8-own", "ipv
                   ("junk", "ipv6"))       # 10 packets in all = the capacity of the socket's queue
 
 
+# "dns" mode: the sockets are open already (an earlier packet was exited), every packet of the two batches names a host, so
+# each one waits for its own name lookup (a task of the exit socket) before it can leave; the flags change during the lookups.
+WINDOW_DNS_A = tuple((p, "domain->ipv4") for p, _ in WINDOW_BATCH_A)
+WINDOW_DNS_B = tuple((p, "domain->ipv6") for p, _ in WINDOW_BATCH_B)
+
+
 def window_cases(thorough: bool) -> list[tuple]:
     ks = range(WINDOW_ITERATIONS)
     arrivals = (1, 2, 3, 4, 5) if thorough else (1, 3)
-    return [(f0, f1, k, a) for f0 in range(8) for f1 in range(8) if f0 != f1 for k in ks for a in arrivals]
+    out = [(f0, f1, k, a) for f0 in range(8) for f1 in range(8) if f0 != f1 for k in ks for a in arrivals]
+    out += [(f0, f1, k, a, "dns") for f0 in range(8) for f1 in range(8) if f0 != f1 for k in range(6)
+            for a in ((1, 2, 3) if thorough else (1, 2))]
+    return out
 
 
 def run_window(case: tuple, seed: int) -> tuple[list, tuple]:
-    f0, f1, k, a = case
+    f0, f1, k, a = case[:4]
+    dns = len(case) > 4 and case[4] == "dns"
+    batch_a, batch_b = (WINDOW_DNS_A, WINDOW_DNS_B) if dns else (WINDOW_BATCH_A, WINDOW_BATCH_B)
     viol: list = []
     w = TunnelWorld(("c06-window", seed), {"O": set(PLAIN), "X": set(FLAGSETS[f0])}, key_offset=seed % 8)
     try:
@@ -891,7 +902,7 @@ def run_window(case: tuple, seed: int) -> tuple[list, tuple]:
         pl = outer_payloads(prefix)
         in_force = frozenset(FLAGSETS[f0])
         desc0 = (f"flags {flag_str(FLAGSETS[f0])} -> {flag_str(FLAGSETS[f1])} before loop iteration {k + 1}, second batch of "
-                 f"packets arrives in iteration {a}")
+                 f"packets arrives in iteration {a}" + (", sockets open, every destination is a host name" if dns else ""))
 
         def send(batch) -> None:  # noqa: ANN001
             for pname, dn in batch:
@@ -900,6 +911,14 @@ def run_window(case: tuple, seed: int) -> tuple[list, tuple]:
                 w.deliver(0, settle=False)
 
         seen = 0
+        if dns:
+            w.loop.resolver.update(RESOLVER)
+            # an earlier packet (allowed under every flag set that exits anything; harmless otherwise) opened the sockets
+            w.nodes["X"].run(setattr, x.settings, "peer_flags", set(FLAGSETS[7]))
+            w.send_out("O", c, DESTS["ipv4"][0], pl["bt+ipv8"])
+            w.flush()
+            w.nodes["X"].run(setattr, x.settings, "peer_flags", set(FLAGSETS[f0]))
+            seen = len(w.loop.outside_log)
         emitted: list = []
         trail = []
         for i in range(1, WINDOW_ITERATIONS + 1):
@@ -907,9 +926,9 @@ def run_window(case: tuple, seed: int) -> tuple[list, tuple]:
                 w.nodes["X"].run(setattr, x.settings, "peer_flags", set(FLAGSETS[f1]))
                 in_force = frozenset(FLAGSETS[f1])
             if i == 1:
-                send(WINDOW_BATCH_A)
+                send(batch_a)
             if i == a:
-                send(WINDOW_BATCH_B)
+                send(batch_b)
             if w.loop.has_work():
                 w.loop.iteration()
             log = w.loop.outside_log
@@ -920,7 +939,7 @@ def run_window(case: tuple, seed: int) -> tuple[list, tuple]:
                 emitted.append((data, tuple(addr)))
                 trail.append((i, cls))
                 if not ref.allowed(v[3], v[4], own, in_force):
-                    viol.append((f"window:emitted-forbidden:{cls}",
+                    viol.append((f"window:emitted-forbidden:{cls}" + ("|after-name-lookup" if dns else ""),
                                  f"{desc0}: in iteration {i}, with {flag_str(in_force)} in force, {data[:24].hex()}.. "
                                  f"(bt={v[3]} ipv8={v[4]} own prefix={own}) left towards {tuple(addr)}"))
                 if ref.is_null_address(addr):
@@ -930,14 +949,15 @@ def run_window(case: tuple, seed: int) -> tuple[list, tuple]:
         if len(w.loop.outside_log) != seen:
             viol.append(("harness:window-too-short", f"{desc0}: emissions after {WINDOW_ITERATIONS} iterations"))
         # packets allowed under both flag sets are allowed at every moment: they must have left, once
-        for pname, dn in WINDOW_BATCH_A + WINDOW_BATCH_B:
+        for pname, dn in batch_a + batch_b:
             data = pl[pname]
             v = classify(data)
             own = data[:22] == prefix
             if ref.allowed(v[3], v[4], own, FLAGSETS[f0]) and ref.allowed(v[3], v[4], own, FLAGSETS[f1]):
                 n = emitted.count((data, tuple(DESTS[dn][1][0])))
                 if n != 1:
-                    viol.append((f"window:{'dropped-allowed' if n == 0 else 'duplicated'}:{ref.shape_class(v[3], v[4], own)}",
+                    viol.append((f"window:{'dropped-allowed' if n == 0 else 'duplicated'}:{ref.shape_class(v[3], v[4], own)}"
+                                 + ("|after-name-lookup" if dns else ""),
                                  f"{desc0}: {pname} to {dn} is allowed before and after the change, emitted {n} times"))
         return viol, ("ran", tuple(trail))
     finally:
